@@ -32,6 +32,7 @@ pub fn gen_simple_pat(sig: &LangSig, alphabet: usize, src: &mut Src, depth: usiz
             Field::Slot => args.push(Arg::S(src.pick(alphabet) as Name)),
             Field::PayU32 => args.push(Arg::P(format!("{}", src.pick(4)))),
             Field::PaySym => args.push(Arg::P(["s", "t", "map"][src.pick(3)].to_string())),
+            Field::PayOther(v) => args.push(Arg::P(v[src.pick(v.len())].to_string())),
             Field::Kid(nb) => {
                 let mut bs: Vec<Name> = (0..*nb).map(|_| src.pick(alphabet + 2) as Name).collect();
                 if bs.len() == 2 && bs[0] == bs[1] {
@@ -57,6 +58,7 @@ fn gen_multi(sig: &LangSig, src: &mut Src) -> Vec<(String, Tm)> {
                 Field::Slot => args.push(Arg::S(src.pick(4) as Name)),
                 Field::PayU32 => args.push(Arg::P(format!("{}", src.pick(4)))),
                 Field::PaySym => args.push(Arg::P("s".into())),
+                Field::PayOther(v) => args.push(Arg::P(v[0].to_string())),
                 Field::Kid(nb) => {
                     let mut bs: Vec<Name> = (0..*nb).map(|_| 4 + src.pick(3) as Name).collect();
                     if bs.len() == 2 && bs[0] == bs[1] {
